@@ -355,6 +355,13 @@ func dispatch(op string, a []val) string {
 		return xB(r[:])
 	case "fromle":
 		return bI(utils.SetBigIntFromLEBytes(new(big.Int), a[0].b))
+	case "fromledirty": // the destination already holds a (large, non-zero) value
+		d := new(big.Int).Lsh(big.NewInt(0x1234567), 250)
+		r := utils.SetBigIntFromLEBytes(d, a[0].b)
+		if r != d {
+			return "NOT-THE-DESTINATION"
+		}
+		return bI(d)
 	case "hexstr":
 		t, _ := utils.Hex(a[0].b).MarshalText()
 		if string(t) != utils.Hex(a[0].b).String() {
@@ -843,6 +850,9 @@ func ffOpIn(backend, op string, a []val, keep func(*ff.Element)) string {
 		case 4:
 			yp = xp
 			zp = xp
+		case 5: // distinct destination that already holds a non-zero value
+			z = x
+			z[0] ^= 0x5a5a5a5a5a5a5a5a
 		}
 		if xp != zp {
 			keep(xp)
@@ -879,6 +889,9 @@ func ffOpIn(backend, op string, a []val, keep func(*ff.Element)) string {
 		zp := &z
 		if a[0].i.Int64() == 1 {
 			zp = &x
+		} else if a[0].i.Int64() == 2 { // distinct destination that already holds a non-zero value
+			z = x
+			z[0] ^= 0x5a5a5a5a5a5a5a5a
 		}
 		if zp != &x {
 			keep(&x)
@@ -1133,6 +1146,9 @@ func ffgOpIn(op string, a []val, keep func(*ffg.Element)) string {
 		case 4:
 			yp = xp
 			zp = xp
+		case 5: // distinct destination that already holds a non-zero value
+			z = x
+			z[0] ^= 0x5a5a5a5a5a5a5a5a
 		}
 		if xp != zp {
 			keep(xp)
@@ -1157,6 +1173,9 @@ func ffgOpIn(op string, a []val, keep func(*ffg.Element)) string {
 		zp := &z
 		if a[0].i.Int64() == 1 {
 			zp = &x
+		} else if a[0].i.Int64() == 2 { // distinct destination that already holds a non-zero value
+			z = x
+			z[0] ^= 0x5a5a5a5a5a5a5a5a
 		}
 		if zp != &x {
 			keep(&x)
